@@ -43,6 +43,8 @@ static void SetupEdges(bool with_long) {
   g_edges.push_back({"E1", {"a"}});
   g_edges.push_back({"E2", {"b", "c c"}});
   if (with_long) g_edges.push_back({"E3", {string(300 << 10, 'L')}});
+  // a name longer than any fixed line buffer a writer might use, far below the reader's limit: written and read back like any other
+  if (with_long) g_edges.push_back({"E4", {string(1500, 'M')}});
   for (int c = 0; c < 2; ++c) {
     g_rules[c] = new Rule(c ? "r2" : "r1");
     EvalString cmd;
@@ -474,6 +476,7 @@ static vector<Op> MainAlphabet(bool with_long, bool thorough) {
       }
   sess({{0, 0, 11}, {1, 1, 22}}, "session(E1,cmd1,mtime11 ; E2,cmd2,mtime22)");
   if (with_long) sess({{2, 0, 11}}, "session(E3-300KiB-name,cmd1,mtime11)");
+  if (with_long) sess({{3, 0, 11}, {0, 0, 22}}, "session(E4-1500-char-name,cmd1,mtime11 ; E1,cmd1,mtime22)");
   { Op o; o.kind = Op::kRecompact; o.label = "recompact(dead={})"; a.push_back(o); }
   { Op o; o.kind = Op::kRecompact; o.dead = {"a"}; o.label = "recompact(dead={a})"; a.push_back(o); }
   { Op o; o.kind = Op::kRecompact; o.dead = {"b"}; o.label = "recompact(dead={b})"; a.push_back(o); }
